@@ -244,7 +244,8 @@ pub fn subjects(progs: &[Program], rep: &mut Report) -> Vec<Subject> {
         for l in L4::ALL {
             let cfg = Cfg::new(l);
             let Ok(Ok((archive, _))) = guard(|| prog::build(p, &cfg)) else {
-                rep.notes.push(format!("subject {} / {} could not be built (see C01)", p.short(), l.tag()));
+                rep.evaluations += 1;
+                rep.violate(Violation { sig: json!({"kind": "subject_archive_cannot_be_built", "layers": l.tag()}), detail: format!("subject {} / {}: a valid writer program gives no archive; an explorer that drops such inputs would pass vacuously", p.short(), l.tag()), replay: json!({"program": p.json(), "layers": l.tag()}), weight: 0 });
                 continue;
             };
             let model = p.model();
